@@ -56,6 +56,7 @@ def small_types():
 
 # ---- VALS(d, w): the value grammar
 import collections
+import typing
 from . import fixtures as FX
 
 ATOMS = [0, True, 1.5, "s", b"b", None]
@@ -67,7 +68,9 @@ def atoms():
                     # instances of generic / protocol classes, an enum member, a namedtuple, the singletons whose types have no builtin name
                     FX.Repo1(), FX.Impl1(), FX.Color.RED, FX.Pair(1, "s"), NotImplemented, FX.Base.__dict__,
                     # C-level callables (method descriptor, slot wrapper, method wrapper, classmethod descriptor): their classes have no name anywhere
-                    str.upper, int.__add__, (1).__add__, dict.__dict__["fromkeys"]]
+                    str.upper, int.__add__, (1).__add__, dict.__dict__["fromkeys"],
+                    # class objects typing refuses as a type argument (get_type falls back to Type[Any])
+                    typing.Generic, typing.Protocol]
 
 
 def vals(depth=2, width=2, limit=None, rnd=None):
